@@ -667,6 +667,11 @@ func generate(repo, out string) error {
 		return err
 	}
 
+	// 4p. the clause evaluation of Filter (QFrame.filter, the clause methods, orFrames, index helpers) as terms of QF.CL (clast.go)
+	if err := writeIfChanged(filepath.Join(out, "Clauses.lean"), []byte(clausesLean(repo))); err != nil {
+		return err
+	}
+
 	// 4m. the three writers of qframe.go (ToJSON, ToCSV, String) as terms of QF.JS / QF.CS / QF.PS (wast.go)
 	if err := writeIfChanged(filepath.Join(out, "Writers.lean"), []byte(writersLean(repo, root, strs))); err != nil {
 		return err
